@@ -85,7 +85,7 @@ func (z *Zone) Add(rrs ...RR) {
 	}
 }
 
-// A, AAAA-agnostic constructors.
+// Addr (A or AAAA by address family), CNAME and Svc build single records.
 func Addr(owner string, ip netip.Addr, ttl uint32) RR {
 	t := TypeAAAA
 	if ip.Is4() {
@@ -137,8 +137,9 @@ func (z *Zone) forced(name string, qtype uint16) int {
 // Lookup is the genuine answer of a recursive resolver for (name, qtype) at
 // zone version v: every CNAME RR of the in-zone chain starting at name, then
 // the RRs of type qtype at the end of the chain, and the response code. A
-// forced rcode anywhere on the chain, a CNAME loop or a chain of more than 8
-// CNAMEs (SERVFAIL) gives no answers.
+// non-zero rcode (forced for any name on the chain, NXDOMAIN for a name
+// without data when NXUnknown is set, SERVFAIL for a CNAME loop or more than
+// 8 CNAMEs) comes with no answers.
 func (z *Zone) Lookup(name string, qtype uint16, v int) ([]RR, int) {
 	var out []RR
 	cur := strings.ToLower(strings.TrimSuffix(name, "."))
